@@ -70,8 +70,10 @@ func NewReloadableOrchestrator(downstream base.Orchestrator, initiateReload Init
 
 // NewSink creates a new reloadable sink for an input source (e.g. incoming TCP connection)
 func (orc *ReloadableOrchestrator) NewSink(clientAddress string, clientNumber base.ClientNumber) base.BufferReceiverSink {
-	lockT := orc.downstreamMutex.RLock() // only read-lock since we assume clientNumber is unique and nobody else is accessing it
-	defer orc.downstreamMutex.RUnlock(lockT)
+	// write-lock: the client number (socket fd) can be reused by a new connection while the old connection with the
+	// same number is still flushing and closing its sink, so the slot table needs exclusive access here
+	orc.downstreamMutex.Lock()
+	defer orc.downstreamMutex.Unlock()
 
 	// create the downstream sink under the lock: a concurrent reload must not replace orc.downstream in between
 	newDownstream := orc.downstream.NewSink(clientAddress, clientNumber)
@@ -81,7 +83,14 @@ func (orc *ReloadableOrchestrator) NewSink(clientAddress string, clientNumber ba
 			"newClient":    clientAddress,
 			"oldClient":    orc.downstreamAddrs[clientNumber],
 			"clientNumber": clientNumber,
-		}).Error("created new sink while old sink is still in place")
+		}).Warn("client number is still in use by an old sink, assign a free slot to the new sink")
+		// never share a slot between two live sinks: the old sink's Close would close and clear the new one
+		for alt := base.MaxClientNumber - 1; alt > 0; alt-- {
+			if orc.downstreamSinks[alt] == nil {
+				clientNumber = alt
+				break
+			}
+		}
 	}
 	orc.downstreamSinks[clientNumber] = newDownstream
 	orc.downstreamAddrs[clientNumber] = clientAddress
